@@ -315,3 +315,34 @@ def idedump(bindir, workspaces, timeout=600):
     if p.returncode != 0:
         raise RuntimeError("idedump failed: " + p.stderr[-1500:])
     return json.loads(p.stdout)
+
+
+# ------------------------------------------------------------------------------------------------ URIs
+
+def decode_uri(root, uri):
+    """Independent decoder (urllib, RFC 3986 / RFC 8089) of a file: URI sent by the server -> workspace-relative path.
+    Anything that does not name a file under `root` exactly (a query, a fragment, a host, another tree) is returned
+    as a `!...` marker that equals no workspace path."""
+    import urllib.parse
+    if not isinstance(uri, str):
+        return "!not-a-string:%r" % (uri,)
+    u = urllib.parse.urlsplit(uri)
+    if u.scheme != "file" or u.netloc not in ("", "localhost") or u.query or u.fragment or "#" in uri or "?" in uri:
+        return "!uri:" + uri
+    try:
+        path = urllib.parse.unquote(u.path, encoding="utf-8", errors="strict")
+    except Exception:      # noqa
+        return "!uri:" + uri
+    r = root.rstrip("/") + "/"
+    if not path.startswith(r):
+        return "!outside:" + path
+    return path[len(r):]
+
+
+def decode_uris(root, v):
+    """rewrites every "uri" / "target" string of a JSON value (raw_uris sessions) into a workspace-relative path"""
+    if isinstance(v, dict):
+        return {k: (decode_uri(root, x) if k in ("uri", "target") and isinstance(x, str) else decode_uris(root, x)) for k, x in v.items()}
+    if isinstance(v, list):
+        return [decode_uris(root, x) for x in v]
+    return v
